@@ -120,7 +120,9 @@ func (k *kubelet) nextAction(p *corev1.Pod) (string, time.Time, bool) {
 		case "late":
 			reqAt = reqAt.Add(f.DieAfter)
 		}
-		if f.ExitFirst != "" && !terminal && p.Status.Phase == corev1.PodRunning {
+		// a container may still exit by itself while the Pod is terminating: a running one, or one
+		// whose image pull finally succeeds right after the deletion was requested
+		if f.ExitFirst != "" && !terminal && p.Spec.NodeName != "" {
 			return "exit-" + f.ExitFirst, reqAt, true
 		}
 		// a terminal status stays observable for at least a second before the object goes away
@@ -241,6 +243,9 @@ func (k *kubelet) step(nsname string) {
 			result = "succ"
 		} else if act == "exit-fail" {
 			result = "fail"
+		}
+		if p.Status.StartTime == nil {
+			p.Status.StartTime = &now
 		}
 		term := &corev1.ContainerStateTerminated{StartedAt: *p.Status.StartTime, FinishedAt: now, Reason: "Completed"}
 		p.Status.Phase = corev1.PodSucceeded
